@@ -245,4 +245,156 @@ def sumTo (f : Nat → Nat) : Nat → Nat
   | 0 => 0
   | n+1 => sumTo f n + f n
 
+
+/-! ### rPOMCP (max-of-belief variant, `UseEntropy = false`)
+
+  Anchors: include/AIToolbox/POMDP/Algorithms/rPOMCP.hpp (`sampleAction` ×2, `runSimulation`, `simulate`,
+  `maxBeliefNodeUpdate`), Utils/rPOMCPGraph.hpp (`BeliefNode<false>::updateBeliefAndKnowledge`, the three
+  `HeadBeliefNode` constructors).  No rollouts, the model's rewards are ignored: the value passed upwards is
+  built from the knowledge measure `max_s count(s) / (N+1)` of the belief nodes.  Everything is rational.
+  `stops` (visits that ended at the node as a leaf) and `margin` (smallest non-zero gap seen in a `>=` / `>`
+  comparison of values, so the driver can set ill-conditioned runs aside) are ghost fields. -/
+namespace R
+
+structure RTree where
+  ex : Path → Bool
+  nN : Path → Nat
+  nA : Path → Nat
+  tb : Path → Nat → Nat
+  keys : Path → List Nat
+  maxS : Path → Nat
+  km : Path → Rat
+  v : Path → Rat
+  actV : Path → Rat
+  best : Path → Nat
+  aN : Path → Nat → Nat
+  aV : Path → Nat → Rat
+  stops : Path → Nat
+  nodes : List Path
+  margin : Option Rat
+
+def RTree.fresh (support : List Nat) (nA : Nat) : RTree :=
+  { ex := fun p => p == [], nN := fun _ => 0, nA := fun p => if p = [] then nA else 0,
+    tb := fun p s => if p = [] ∧ support.contains s then 1 else 0, keys := fun p => if p = [] then support else [],
+    maxS := fun _ => 0, km := fun _ => 0, v := fun _ => 0, actV := fun _ => 0, best := fun _ => 0,
+    aN := fun _ _ => 0, aV := fun _ _ => 0, stops := fun _ => 0, nodes := [[]], margin := none }
+
+def noteMargin (t : RTree) (x y : Rat) : RTree :=
+  let d := if x < y then y - x else x - y
+  if d == 0 then t else
+  match t.margin with
+  | none => { t with margin := some d }
+  | some e => if d < e then { t with margin := some d } else t
+
+/-- `BeliefNode<false>::updateBeliefAndKnowledge(s)` (`operator[]` on `maxS_` may create a zero entry) -/
+def RTree.updBK (t : RTree) (p : Path) (s : Nat) : RTree :=
+  let c := t.tb p s + 1
+  let tb' := updN (t.tb p) s c
+  let ms := if tb' (t.maxS p) < c then s else t.maxS p
+  let keys := if (t.keys p).contains s then t.keys p else t.keys p ++ [s]
+  { t with tb := upd t.tb p tb', maxS := upd t.maxS p ms, keys := upd t.keys p keys,
+           km := upd t.km p ((tb' ms : Rat) / ((t.nN p + 1 : Nat) : Rat)) }
+
+/-- first maximum of the action values (`std::max_element` with `<`) -/
+def argmaxV (f : Nat → Rat) (n : Nat) : Nat :=
+  (List.range n).foldl (fun best a => if f best < f a then a else best) 0
+
+def RTree.alloc (t : RTree) (p : Path) (n : Nat) : Option RTree :=
+  if t.nA p = n then some t else if t.nA p = 0 then some { t with nA := upd t.nA p n } else none
+
+def ruct (m : Mdl) (t : RTree) (p : Path) (a : Nat) : Bool :=
+  if m.explPos then
+    match firstUntried (t.aN p) (t.nA p) with
+    | some u => a == u
+    | none => true
+  else if t.aN p 0 = 0 then a == 0 else t.aN p a != 0
+
+/-- `rPOMCP::simulate(node at p, s, depth)`; `k` is the threshold `k_` -/
+def rsim (m : Mdl) (H k : Nat) : Nat → RTree → Path → Nat → Nat → List Step → Option (RTree × Rat × List Step)
+  | 0, _, _, _, _, _ => none
+  | _+1, _, _, _, _, [] => none
+  | fuel+1, t, p, s, depth, st :: log =>
+    if st.s = s && decide (st.a < t.nA p) && m.valid st && ruct m t p st.a then
+      let a := st.a
+      let t := { t with nN := upd t.nN p (t.nN p + 1) }
+      let child := p ++ [(a, st.o)]
+      let newNode := !(t.ex child)
+      let t := if newNode then { t with ex := upd t.ex child true, nodes := t.nodes ++ [child] } else t
+      let t := t.updBK child st.s1
+      let r : Option (RTree × Rat × List Step) :=
+        if decide (depth + 1 < H) && !st.term && !newNode then
+          match t.alloc child (m.numA st.s1) with
+          | none => none
+          | some t => rsim m H k fuel t child st.s1 (depth + 1) log
+        else
+          let t := { t with nN := upd t.nN child (t.nN child + 1), stops := upd t.stops child (t.stops child + 1) }
+          some (t, if depth + 1 < H then 0 else t.km child, log)
+      match r with
+      | none => none
+      | some (t, imm, log') =>
+        let n := t.aN p a + 1
+        let t := { t with aN := upd t.aN p (updN (t.aN p) a n),
+                          aV := upd t.aV p (updN (t.aV p) a (t.aV p a + (imm - t.aV p a) / (n : Rat))) }
+        if depth = 0 then some (t, 0, log') else
+        let t :=
+          if k ≤ t.nN p then
+            if t.nN p = k then
+              -- actionsV = HUGE_VAL, bestAction = a, then maxBeliefNodeUpdate: the `else if` branch recomputes
+              let b := argmaxV (t.aV p) (t.nA p)
+              { t with actV := upd t.actV p (t.aV p b), best := upd t.best p b }
+            else
+              let t := noteMargin t (t.aV p a) (t.actV p)
+              if t.actV p ≤ t.aV p a then { t with actV := upd t.actV p (t.aV p a), best := upd t.best p a }
+              else if a = t.best p then
+                let b := argmaxV (t.aV p) (t.nA p)
+                { t with actV := upd t.actV p (t.aV p b), best := upd t.best p b }
+              else t
+          else { t with actV := upd t.actV p (t.actV p + (imm - t.actV p) / ((t.nN p : Nat) : Rat)) }
+        let oldV := t.v p
+        let newV := m.gamma * t.actV p + t.km p
+        some ({ t with v := upd t.v p newV }, ((t.nN p - 1 : Nat) : Rat) * (newV - oldV) + newV, log')
+    else none
+
+def rrunSims (m : Mdl) (H k : Nat) : Nat → RTree → List Step → Option (RTree × List Step)
+  | 0, t, log => some (t, log)
+  | _+1, _, [] => none
+  | n+1, t, st :: log =>
+    if t.tb [] st.s != 0 then
+      match rsim m H k (H + 1) t [] st.s 0 (st :: log) with
+      | none => none
+      | some (t', _, log') => rrunSims m H k n t' log'
+    else none
+
+/-- `graph_ = HNode(A, std::move(tmp), rand_)`: the child becomes the root with everything it holds -/
+def RTree.reroot (t : RTree) (k : Key) : RTree :=
+  { ex := fun p => t.ex (k :: p), nN := fun p => t.nN (k :: p), nA := fun p => t.nA (k :: p),
+    tb := fun p => t.tb (k :: p), keys := fun p => t.keys (k :: p), maxS := fun p => t.maxS (k :: p),
+    km := fun p => t.km (k :: p), v := fun p => t.v (k :: p), actV := fun p => t.actV (k :: p),
+    best := fun p => t.best (k :: p), aN := fun p => t.aN (k :: p), aV := fun p => t.aV (k :: p),
+    stops := fun p => t.stops (k :: p),
+    nodes := t.nodes.filterMap (fun p => match p with | k' :: r => if k' = k then some r else none | [] => none),
+    margin := t.margin }
+
+/-- one public call of rPOMCP; after the simulations `graph_.V = graph_.children[bestA].V` -/
+def rcall (m : Mdl) (k : Nat) (t : RTree) (op : Op) (log : List Step) : Option (RTree × List Step) :=
+  let prep : Option (RTree × Nat × Nat) := match op with
+    | .fresh parts nA H iters => some (RTree.fresh parts nA, H, iters)
+    | .adv a o parts nA H iters =>
+      if a < t.nA [] then
+        if t.ex [(a, o)] && (t.keys [(a, o)]).any (fun s => t.tb [(a, o)] s != 0) then
+          ((t.reroot (a, o)).alloc [] nA).map (fun t' => (t', H, iters))
+        else some (RTree.fresh parts nA, H, iters)
+      else none
+  match prep with
+  | none => none
+  | some (t0, H, iters) =>
+    if H = 0 then some (t0, log) else
+    match rrunSims m H k iters t0 log with
+    | none => none
+    | some (t1, rest) =>
+      let b := argmaxV (t1.aV []) (t1.nA [])
+      some ({ t1 with v := upd t1.v [] (t1.aV [] b) }, rest)
+
+end R
+
 end AITB.Tree
